@@ -64,6 +64,13 @@ def explore_pairs(tag: str, jobs: List[dict], tier: str, workers: int, c: Counte
             if 'error' in r:
                 raise RuntimeError(f'Engine C harness error in {r["name"]}: {r["error"]}')
             for v in r['violations']:
+                if v.get('thread_dependent'):
+                    src = r['a'] if v['preempted'] == 'a' else r['b']
+                    c.violate(f'{tag}:thread-dependent:{r["name"]}',
+                              f'`{src}` called alone in a second thread gives {v["got"][0]}; in the thread that imported the library it gives {v["sequential"][0][0]}',
+                              {'kind': 'conc', 'job': {k: r[k] for k in ("name", "a", "b")} | {'shared': next((j.get("shared", "") for j in jobs if j["name"] == r["name"]), "")},
+                               'granularity': gran, 'violation': v})
+                    continue
                 c.violate(f'{tag}:concurrent:{r["name"]}',
                           f'two calls in two threads, `{r["a"]}` and `{r["b"]}`: with thread {v["preempted"]} preempted at trace point {v["at_point"]} of {v["of"]} '
                           f'the results are {v["got"]}; run one after the other they are {v["sequential"][0]}',
